@@ -30,7 +30,7 @@ def main():
         print("refusing: /repo is dirty:\n" + st); sys.exit(2)
     r = sh(f"git -C /repo apply --3way {d}/patch.diff")
     if r.returncode != 0:
-        print("patch does not apply:\n" + r.stdout); sh("git -C /repo checkout -- . && git -C /repo reset -q"); sys.exit(2)
+        print("patch does not apply:\n" + r.stdout); sh("git -C /repo reset -q && git -C /repo checkout -- ."); sys.exit(2)
     results = {}
     try:
         for p in props:
